@@ -580,15 +580,18 @@ func c15Invite(c *mon.Ctx, r *gen.Rand, sc *simScenario, b *simBranch) {
 	names := []string{"room-matches", "origin-signature-valid", "not-already-joined-in-known-room", "is-an-invite-of-the-invited-user"}
 	invitee := "@invitee:third.example"
 	inviteeID := serverIdentity("third.example")
-	inviter := ""
+	// (the inviter may be on the invited user's own server: the invite still arrives from elsewhere and has to carry
+	// that server's signature as it arrives - the one the handler is about to add does not count)
+	var inviters []string
 	for _, u := range s.users {
-		if s.membership(b, u) == "join" && serverOf(u) != "third.example" {
-			inviter = u
+		if s.membership(b, u) == "join" {
+			inviters = append(inviters, u)
 		}
 	}
-	if inviter == "" {
+	if len(inviters) == 0 {
 		return
 	}
+	inviter := gen.Pick(r, inviters)
 	for _, vec := range guardVectors(r, len(names), 2) {
 		proto := gmsl.ProtoEvent{SenderID: inviter, RoomID: s.roomID, Type: "m.room.member", StateKey: strp(invitee), PrevEvents: []string{b.tip}, Depth: b.depth + 1,
 			Content: []byte(`{"membership":"invite"}`)}
@@ -628,7 +631,7 @@ func c15Invite(c *mon.Ctx, r *gen.Rand, sc *simScenario, b *simBranch) {
 		if err != nil {
 			continue
 		}
-		junk := r.Chance(0.3)
+		junk := r.Chance(0.3) && serverOf(inviter) != inviteeID.Server // (there it would replace the genuine signature)
 		if junk {
 			// a made-up entry under the invited server's own name and key ID among the signatures
 			if je, err := s.impl.NewEventFromTrustedJSON(withJunkSignature(r, ev.JSON(), inviteeID), false); err == nil {
@@ -890,10 +893,11 @@ func c15PerformJoin(c *mon.Ctx, r *gen.Rand, sc *simScenario, b *simBranch) {
 			if r.Chance(0.5) {
 				// the resident server also lists, first in the auth chain, a badly signed create event of another room whose
 				// version is known: a sanity check that stops at the first create event it sees is satisfied by the decoy
-				c15DecoyCreate = sc.s.create
+				// (badly signed, or - a room the resident server is in as well - signed as it should be)
+				c15DecoyCreate, c15DecoyCreateIntact = sc.s.create, r.Chance(0.5)
 			}
 			c15PerformJoinOn(c, r, alt, alt.trunk.clone(), vec, names)
-			c15DecoyCreate = nil
+			c15DecoyCreate, c15DecoyCreateIntact = nil, false
 			continue
 		}
 		c15PerformJoinOn(c, r, sc, rb, vec, names)
@@ -902,6 +906,7 @@ func c15PerformJoin(c *mon.Ctx, r *gen.Rand, sc *simScenario, b *simBranch) {
 
 // c15DecoyCreate, when set, is a create event of another room put (badly signed) at the head of the auth chain.
 var c15DecoyCreate gmsl.PDU
+var c15DecoyCreateIntact bool
 
 // c15PerformJoinOn runs one PerformJoin case against the room state rb.
 func c15PerformJoinOn(c *mon.Ctx, r *gen.Rand, sc *simScenario, rb *simBranch, vec []bool, names []string) {
@@ -958,7 +963,11 @@ func c15PerformJoinOn(c *mon.Ctx, r *gen.Rand, sc *simScenario, rb *simBranch, v
 			resp.state = append(resp.state, js)
 		}
 		if c15DecoyCreate != nil {
-			resp.auth = append(resp.auth, corruptSig(c15DecoyCreate))
+			if c15DecoyCreateIntact {
+				resp.auth = append(resp.auth, c15DecoyCreate.JSON())
+			} else {
+				resp.auth = append(resp.auth, corruptSig(c15DecoyCreate))
+			}
 		}
 		if vec[1] {
 			resp.state = append(resp.state, s.create.JSON())
